@@ -394,8 +394,9 @@ func run() {
 	// memio.go translated (C15)
 	write("MemIO", guarded("MemIO", func() string { return t.genMemIO() }))
 	dataMods = append(dataMods, "MemIO")
-	write("TinyCPMSource", guarded("TinyCPMSource", func() string { return genSourcePin(*repo, "internal/tinycpm/tinycpm.go", "tinycpmSource") }))
-	dataMods = append(dataMods, "TinyCPMSource")
+	// the Go glue of internal/tinycpm translated (C18)
+	write("CPMGlue", guarded("CPMGlue", func() string { return genTinyCPMGlue(*repo) }))
+	dataMods = append(dataMods, "CPMGlue")
 	// structural facts (C10)
 	write("Facts", t.genFacts())
 	dataMods = append(dataMods, "Facts")
